@@ -19,6 +19,7 @@ Definition ka_new (conf : PduConfig) (progress : Z) : res (KeepAlivePdu * PduCon
 Definition ka_set_file_flag (p : KeepAlivePdu) (flag : Z) : res KeepAlivePdu :=
   let l := 4 in
   let l := if flag =? FILE_LARGE then 8 else l in
+  let l := if cf_crc (h_conf (fd_hdr (ka_fd p))) =? CRC_WITH_CRC then l + 2 else l in
   let f := ka_fd p in
   let f := {| fd_hdr := hdr_with_conf (fd_hdr f) (conf_set_large (h_conf (fd_hdr f)) flag);
               fd_type := fd_type f |} in
@@ -27,18 +28,13 @@ Definition ka_set_file_flag (p : KeepAlivePdu) (flag : Z) : res KeepAlivePdu :=
 
 Definition ka_packet_len (p : KeepAlivePdu) : Z := fdir_packet_len (ka_fd p).
 
-(* struct.pack("I", v) / struct.pack("Q", v): native byte order of the host (little-endian
-   on the platform the check runs on), struct.error out of range *)
-Definition struct_pack_native (n : nat) (v : Z) : res bytes :=
-  if (0 <=? v) && (v <? 256 ^ Z.of_nat n) then Ok (le_encode n v) else Err EStruct.
-
 (* KeepAlivePdu.pack *)
 Definition ka_pack (p : KeepAlivePdu) : res bytes :=
   do b <- fdir_pack (ka_fd p);
   do s <- (if negb (hdr_large_file (fd_hdr (ka_fd p))) then
              if ka_progress p >? 2 ^ 32 - 1 then Err EValue
-             else struct_pack_native 4 (ka_progress p)
-           else struct_pack_native 8 (ka_progress p));
+             else struct_pack 4 (ka_progress p)
+           else struct_pack 8 (ka_progress p));
   let b := b ++ s in
   if cf_crc (h_conf (fd_hdr (ka_fd p))) =? CRC_WITH_CRC then
     do c <- struct_pack 2 (crc16 b); Ok (b ++ c)
@@ -53,6 +49,10 @@ Definition ka_unpack (data : bytes) : res KeepAlivePdu :=
   do p <- ka_empty;
   do f <- fdir_unpack data;
   do _ <- hdr_verify_length_and_checksum (fd_hdr f) data;
+  (* data = data[:end_of_params]: the octets of this PDU in front of its CRC trailer *)
+  let end_of_params :=
+    if cf_crc (h_conf (fd_hdr f)) =? CRC_WITH_CRC then fdir_packet_len f - 2 else fdir_packet_len f in
+  let data := slice_to data end_of_params in
   let current_idx := fdir_header_len f in
   let n := if negb (hdr_large_file (fd_hdr f)) then 4 else 8 in
   if len data - current_idx <? n then Err EValue else
